@@ -257,6 +257,10 @@ def main(run):
             ok = False
         return [ids[id(x)] for x in res] if ok else None
 
+    def not_evaluable(op):
+        key_ = "oracle_clause_not_evaluable_" + op
+        run.extra_cov[key_] = run.extra_cov.get(key_, 0) + 1
+
     def gen_pop(nmin=1, nmax=8, positive_first=False, nobj=None):
         n = rng.randint(nmin, nmax)
         m = nobj or rng.choice([1, 1, 2, 2, 3, 4])
@@ -330,8 +334,9 @@ def main(run):
             if idx is not None:
                 n = len(pop)
                 if len(log) != k * ts or any(d[0] != "choice" or d[1] != n for d in log):
-                    run.oracle_violation("selTournament did not sample tournsize aspirants from the population for each tournament",
-                                         case, observed=jlog(log))
+                    # the aspirants of each tournament cannot be identified from the log: the clause is not evaluable
+                    # here; the correspondence (which will disagree) decides
+                    not_evaluable("selTournament")
                 else:
                     for t in range(k):
                         asp = [d[2] for d in log[t * ts:(t + 1) * ts]]
@@ -394,8 +399,6 @@ def main(run):
         if inscope and (u is None or u > 0):
             idx = common(case, pop, snap, out, k)
             if idx is not None and k > 0:
-                if len(log) != 1 or u is None:
-                    run.oracle_violation("selStochasticUniversalSampling did not use exactly one random start", case, observed=jlog(log))
                 S = sum(r[0] for r in rows)
                 for i in range(len(pop)):
                     share = Fr(k) * rows[i][0] / S
@@ -468,9 +471,10 @@ def main(run):
                     if idx[t] not in bests(asp):
                         return "selection %d is %d, not a best one of the size-tournament winners %r" % (t, idx[t], asp)
             if pos[0] != len(log):
-                return "more random draws than the documented procedure needs"
-        except LookupError as e:
-            return "random draws do not follow the documented procedure (%s)" % e
+                not_evaluable("selDoubleTournament")
+        except LookupError:
+            not_evaluable("selDoubleTournament")
+            return None
         return None
 
     # ==========================================================================================
@@ -536,8 +540,18 @@ def main(run):
         n, m = len(rows), len(w)
         if len(log) != 2 * k or any(log[2 * t][0] != "shuffle" or sorted(log[2 * t][1]) != list(range(m)) or
                                     log[2 * t + 1][0] != "choice" for t in range(k)):
-            run.oracle_violation("%s: draws are not one shuffle of the cases and one choice per selection" % case["op"], case,
-                                 observed=jlog(log))
+            # case order unknown: only the order-independent clauses can be evaluated
+            not_evaluable(case["op"])
+            for t in range(k):
+                win = idx[t]
+                for y in range(n):
+                    if y != win and dominated_by(w, rows, y, win):
+                        tol = Fr(0) if kind == "plain" else (Fr(eps) if kind == "eps" else None)
+                        if tol is not None and any(better(w[c], rows[y][c], rows[win][c]) and abs(rows[y][c] - rows[win][c]) > tol
+                                                   for c in range(m)):
+                            run.oracle_violation("%s: winner %d of selection %d is dominated by %d, which is better by more than "
+                                                 "epsilon on some case" % (case["op"], win, t, y), case, observed=idx)
+                            return
             return
         for t in range(k):
             win = idx[t]
